@@ -125,6 +125,12 @@ func c05Clone(src, dst string) error {
 			}
 			dirs = append(dirs, dirFix{q, fi})
 		case fi.Mode()&os.ModeSymlink != 0:
+			st := fi.Sys().(*syscall.Stat_t)
+			if first, ok := inodes[st.Ino]; ok { // a hard link to a symbolic link
+				note(os.Link(first, q))
+				return nil
+			}
+			inodes[st.Ino] = q
 			t, err := os.Readlink(p)
 			note(err)
 			if t == src || strings.HasPrefix(t, src+"/") {
@@ -360,7 +366,10 @@ func (g *c05Gen) path(ents []c05Entry) string {
 			p = q + "/" + g.name()
 		}
 	}
-	if g.rng.Intn(100) >= 5 {
+	// Non-canonical spellings (trailing slash, "." and ".." segments, doubled slashes) are outside the
+	// property's quantifier (names of a small universe, absolute or working-directory-relative); they
+	// are generated only when VERIF_C05_NONCANON=1 (the divergences they expose are listed in DESIGN.md).
+	if os.Getenv("VERIF_C05_NONCANON") != "1" || g.rng.Intn(100) >= 5 {
 		return p
 	}
 	switch g.rng.Intn(5) {
@@ -382,6 +391,32 @@ func (g *c05Gen) path(ents []c05Entry) string {
 	default:
 		return p + "/."
 	}
+}
+
+// fresh returns a path that most probably does not exist but whose parent does: a directory (or the root,
+// or a symbolic link to a directory) plus a name. Creating operations use it so that they succeed often enough.
+func (g *c05Gen) fresh(ents []c05Entry) string {
+	var parents []string
+	for _, e := range ents {
+		if strings.Count(e.rel, "/") >= 2 {
+			continue
+		}
+		if st, err := os.Stat(c05Join(g.rootB, e.rel)); err == nil && st.IsDir() {
+			parents = append(parents, e.rel)
+		}
+	}
+	if len(parents) == 0 || g.rng.Intn(3) == 0 {
+		return g.name()
+	}
+	return parents[g.rng.Intn(len(parents))] + "/" + g.name()
+}
+
+// existing returns an entry of the given kind, or any path when there is none.
+func (g *c05Gen) existing(ents []c05Entry, kind string) string {
+	if q, ok := g.pick(ents, kind); ok {
+		return q
+	}
+	return g.path(ents)
 }
 
 // target returns a symbolic-link text.
@@ -471,6 +506,9 @@ func (g *c05Gen) next() c05Op {
 	switch k {
 	case "mkdir", "mkdirall", "remove", "rmdir", "removeall":
 		op.P = g.path(ents)
+		if k == "mkdir" && g.rng.Intn(100) < 45 {
+			op.P = g.fresh(ents)
+		}
 		if k == "removeall" && g.rng.Intn(3) == 0 {
 			if q, ok := g.pick(ents, "sym"); ok {
 				op.P = q
@@ -498,9 +536,21 @@ func (g *c05Gen) next() c05Op {
 	case "rename", "posixrename", "link":
 		op.P = g.path(ents)
 		op.Q = g.path(ents)
+		if k == "link" && g.rng.Intn(100) < 55 {
+			op.P = g.existing(ents, []string{"file", "file", "sym"}[g.rng.Intn(3)])
+		}
+		if k != "link" && g.rng.Intn(100) < 45 && len(ents) > 0 {
+			op.P = ents[g.rng.Intn(len(ents))].rel
+		}
+		if g.rng.Intn(100) < 45 {
+			op.Q = g.fresh(ents)
+		}
 	case "symlink":
 		op.P, op.TAbs = g.target(ents)
 		op.Q = g.path(ents)
+		if g.rng.Intn(100) < 55 {
+			op.Q = g.fresh(ents)
+		}
 	case "readlink":
 		op.P = g.path(ents)
 		if g.rng.Intn(2) == 0 {
@@ -524,6 +574,9 @@ func (g *c05Gen) next() c05Op {
 		}
 	case "truncate":
 		op.P = g.path(ents)
+		if g.rng.Intn(100) < 40 {
+			op.P = g.existing(ents, "file")
+		}
 		op.N = g.rng.Int63n(21)
 	case "glob":
 		op.P = c05GlobPatterns[g.rng.Intn(len(c05GlobPatterns))]
